@@ -3,6 +3,9 @@
    the text, start <= end, on char boundaries) that never reports the model's own fuel error.
    Statements only; proofs in Proofs/ApiProofs.v. *)
 From FR Require Import Base Utf8 Api ApiProofs.
+From FR Require Import State Utf8Facts Chars Ast Analyze Sem SemSound Vm Compile Param ArrowA CompileCorrect KeepOut EndToEnd ApiVm.
+From Coq Require Import NArith Lia.
+
 
 (* every yielded sequence, for any number of next() calls: strictly increasing starts, no
    overlap, never before the previous end, every span valid; an Err item is the last item *)
@@ -66,7 +69,29 @@ Example toy_run : map (fun it => match it with ItOk a b _ => (a, b) | _ => (9, 9
                       (collect toy_tx toy_search 9 m_init) = [(0, 1); (2, 3)].
 Proof. vm_compute. reflexivity. Qed.
 
+
+(* ---- the same, for the COMPILED search (Proofs/ApiVm.v): SearchOK is proved, not assumed ---- *)
+Theorem C08_vm_sorted : forall cs bs e p, VmScope cs bs e p ->
+  forall ng max_st limit fuelv,
+  (forall pos f, vsearch cs p ng max_st limit fuelv pos f <> SErr EFuel) ->
+  forall n, chain (concat cs) 0 (collect (concat cs) (vsearch cs p ng max_st limit fuelv) n m_init) /\ length (collect (concat cs) (vsearch cs p ng max_st limit fuelv) n m_init) <= length (concat cs) + 2.
+Proof. intros cs bs e p (W & Hl & Hc & Ho & Hr & Hk) ng max_st limit fuelv Hnf n. split; [eapply vm_find_iter_chain|eapply vm_find_iter_length]; eauto. Qed.
+
+(* "the sequence equals the one obtained by repeatedly taking the reference leftmost match from
+   the previous end, stepping one character after an empty match and dropping an empty match
+   adjacent to the previous match": as long as the compiled search does not give up (stack bound,
+   backtrack limit), find_iter over the compiled program yields exactly the spans that the same
+   iterator yields over the reference search [rsearch] (the first result of the reference
+   semantics of (?s:.)*?(e) from the offset, with the skipped-empty-match flag) *)
+Theorem C08_vm_is_reference_iteration : forall cs bs e p, VmScope cs bs e p ->
+  forall ng max_st limit fuelv,
+  forall n, no_err (collect (concat cs) (vsearch cs p ng max_st limit fuelv) n m_init) ->
+  spans (collect (concat cs) (vsearch cs p ng max_st limit fuelv) n m_init) = spans (collect (concat cs) (rsearch cs e) n m_init).
+Proof. intros cs bs e p (W & Hl & Hc & Ho & Hr & Hk) ng max_st limit fuelv n Hne. eapply vm_find_iter_is_reference; eauto. apply bst_init. Qed.
+
 Print Assumptions C08_sorted.
 Print Assumptions C08_terminates.
 Print Assumptions C08_step.
 Print Assumptions C08_fused_after_err.
+Print Assumptions C08_vm_sorted.
+Print Assumptions C08_vm_is_reference_iteration.
